@@ -3,5 +3,6 @@ CONSTANTS
   MinBackoff = 300
   MaxTx = 6
   MaxSendMs = 12000
+  Judge = "C09"
 POSTCONDITION TraceAccepted
 CHECK_DEADLOCK FALSE
